@@ -322,7 +322,7 @@ fn main() {
         }
     });
     let mut ev = ev;
-    if args.only.is_none() && args.shard == 0 {
+    if args.blocks() {
         sentinel_axes(&mut ev);
     }
     ev.finish(
